@@ -186,9 +186,11 @@ protected:
     // allocate edge dests and data
     inEdgeDst.allocateInterleaved(BaseGraph::numEdges);
 
-    if (!std::is_void<EdgeTy>::value) {
-      inEdgeData.allocateInterleaved(BaseGraph::numEdges);
-    }
+    // Also without edge data: when in-edges share the out-edge's data
+    // (EdgeDataByValue == false) inEdgeData is an index array that
+    // sortInEdgesByDst permutes together with the sources. (For by-value void
+    // graphs this is LargeArray<void>, whose allocate is a no-op.)
+    inEdgeData.allocateInterleaved(BaseGraph::numEdges);
 
     galois::do_all(
         galois::iterate(UINT64_C(0), BaseGraph::numNodes), [&](uint64_t src) {
